@@ -51,8 +51,8 @@ def processCase (cfg : ParseCfg) (c : Case) : Array String := Id.run do
         let obs := (o.first "parse").getD []
         out := out.v cid o.n "C17" "K" (kvInt obs "rc" == 1 && kvInt obs "code" == 1 && (kv obs "root") == some "null")
           s!"parse under allocation failure: rc={kvInt obs "rc"} code={kvInt obs "code"} root={kv obs "root"}"
+        -- the object stays defined: later calls are judged like any other (C14)
         hs := setH hs h (st.record 1)
-        poisoned := h :: poisoned
       | "free" =>
         out := out.v cid o.n "C17" "K" false "allocation during yaep_free_grammar"
       | _ => out := out.s cid s!"op {o.n} allocation failure in {o.cmd}"
